@@ -61,13 +61,15 @@ def run(chk, w):
     # ---- TYPE
     chk.rule("C18-TYPE", "every transmit call site passes a literal message type below 0x80")
     for (f, c, ctor) in S.sites:
-        t = rules.const_of(f, S.type_arg(c))
-        if t is None:
+        tvs = S.type_values(f, c)
+        if tvs is None:
             chk.violation("C18-TYPE", f.name, "type", c.loc(), "message type passed to %s is not a literal" % ctor)
-        elif not (0 <= (t & 0xff) < 0x80):
-            chk.violation("C18-TYPE", f.name, "type", c.loc(), "message type 0x%02x is not a downlink type (>= 0x80): it indexes the response table out of range" % (t & 0xff))
-        else:
-            chk.ok("C18-TYPE", 1, {"site": c.loc(), "type": "0x%02x" % (t & 0xff)} if f.name.endswith("ping") else None)
+            continue
+        for (g_, c_, t) in tvs:
+            if not (0 <= t < 0x80):
+                chk.violation("C18-TYPE", g_.name, "type", c_.loc(), "message type 0x%02x is not a downlink type (>= 0x80): it indexes the response table out of range" % t)
+            else:
+                chk.ok("C18-TYPE", 1, {"site": c_.loc(), "type": "0x%02x" % t} if g_.name.endswith("ping") else None)
 
     # ---- LEN
     chk.rule("C18-LEN", "at every transmit call site the payload length is <= 121 (length byte <= 127, no 8-bit wrap in the constructor)")
@@ -204,7 +206,10 @@ def run(chk, w):
                 if inst.op == "call" and inst.callee and (inst.callee in S.constructors or (inst.callee in P.functions and rules.call_reaches(P, inst, set(S.constructors)))):
                     hit["tx"] = True
                 return None
-            wk = pathwalk.Walker(f, cells=pcell, fork_cells=(), argvals={pidx: v}, max_states=20000)
+            from ..pending import bool_cells
+            cells_ = dict(bool_cells(f))
+            cells_.update(pcell)
+            wk = pathwalk.Walker(f, cells=cells_, fork_cells=(), argvals={pidx: v}, max_states=20000)
             wk.walk(0, on_inst)
             if hit["tx"]:
                 got.add(v)
